@@ -543,6 +543,27 @@ def generate(rng, tier):
         c['ps_form'] = rng.choice(['tuple', 'scalar', 'list', 'array'])
         if constructible(c):
             out.append(c)
+    # lentil.rescale called directly: shape None / scalar / pair (tuple, list, array), explicit masks, unitary, both configurations
+    n_util = 40 if quick else 300
+    tries = 0
+    while n_util and tries < 5000:
+        tries += 1
+        n, m = rng.randint(4, 14), rng.randint(4, 14)
+        sc = Fraction(rng.choice(['1/2', '1/2', '3/4', '1', '1', '3/2', '2', '3', '1/4', '5/4']))
+        c = {'op': 'util', 'n': n, 'm': m, 'g': rnd_g(rng), 'img': rng.choice(['amp', 'amp', 'opd', 'aperture', 'disk', 'int', 'signed']),
+             'order': rng.choice([3, 3, 0]), 'scale': str(sc),
+             'shape': rng.choice([None, None, None, rng.randint(3, 16), [rng.randint(3, 16), rng.randint(3, 16)]]),
+             'shape_form': rng.choice(['tuple', 'list', 'array']),
+             'umask': rng.choice([None, None, None, 'ones', 'disk', 'smooth', 'small', 'f32', 'bigger', 'intones', 'bool']),
+             'unitary': rng.random() < 0.35}
+        if c['unitary'] and rng.random() < 0.7:      # make every output sample a node so that the factor is pinned
+            k = rng.choice([1, 2, 2, 4])
+            c.update({'scale': str(Fraction(1, k)), 'n': k * rng.randint(2, 6), 'm': k * rng.randint(2, 6), 'shape': None})
+            sc = Fraction(1, k)
+        bn, bm = util_base(c)
+        if all(Fraction(x * float(sc)) == x * sc for x in (bn, bm, c['n'], c['m'])):
+            out.append(c)
+            n_util -= 1
     # fit_tilt, THEN rescale/resample: the fitted tilt (an angle) is optics and must survive unchanged
     for k in range(10 if quick else 60):
         sc = rng.choice(['1/2', '3/4', '1', '5/4', '3/2', '2', '3', '5/2'])
@@ -613,6 +634,9 @@ def generate(rng, tier):
 
 
 def classify(c):
+    if c['op'] == 'util':
+        return (f"util/order{c['order']}/shape={'none' if c['shape'] is None else ('scalar' if isinstance(c['shape'], int) else 'pair')}"
+                f"/mask={c['umask']}{'/unitary' if c['unitary'] else ''}")
     if c['op'] == 'tiltchain':
         return f"tiltchain/{c['via']}/{'segmented' if c['mask'].startswith('seg') else 'monolithic'}"
     if c['op'] == 'sequence':
@@ -654,6 +678,8 @@ def scalar_mask(c):
 
 
 def nontrivial(c):
+    if c['op'] == 'util':
+        return Fraction(c['scale']) != 1 or c['shape'] is not None or c['umask'] is not None or c['unitary']
     if c['op'] == 'tiltchain':
         return Fraction(c['scale']) != 1
     if c['op'] == 'sequence':
@@ -683,6 +709,8 @@ def enc_fld(x):
 
 
 def encode(c):
+    if c['op'] == 'util':
+        return encode_util(c)
     if c['op'] == 'tiltchain' or c.get('nomodel'):
         return None     # decided by the oracle (fit_tilt is not modelled here / plane too large for exact rationals)
     if c['op'] in MULTI:
@@ -724,6 +752,18 @@ UNKNOWN = None
 
 
 def decode(c, ints):
+    if c['op'] == 'util':
+        if ints[0] == 1:
+            return {'err': C.ERRNAMES.get(ints[1], '?')}
+        r = C.Reader(ints[1:])
+        n, m = r.z(), r.z()
+
+        def samp():
+            t = r.z()
+            return r.q() if t == 0 else ('nonzero' if t == 1 else UNKNOWN)
+        out = [[samp() for _ in range(m)] for _ in range(n)]
+        assert r.done()
+        return out
     if c['op'] in MULTI:
         r = C.Reader(ints[1:])
         out = [decode_one(r) for _ in calls_of(c)]
@@ -1078,9 +1118,160 @@ def tiltchain_verdict(c, r):
     return None
 
 
+# ------------------------------------------------------------------ lentil.rescale called directly (all its arguments)
+EPS64 = Fraction(1, 2 ** 52)
+EPS32 = Fraction(1, 2 ** 23)
+
+
+def util_arrays(c):
+    """img and explicit mask of a direct lentil.rescale call"""
+    n, m = c['n'], c['m']
+    amp, opd = smooth_fields(n, m, c['g'])
+    u, v = grid(n, m)
+    disk = (np.hypot(u, v) <= 0.8).astype(float)
+    img = {'amp': amp, 'opd': opd, 'aperture': amp * disk, 'disk': disk, 'int': (disk * 3).astype(int),
+           'signed': amp * (u + 0.3)}[c['img']]
+    um = c['umask']
+    if um is None:
+        mk = None
+    elif um == 'ones':
+        mk = np.ones((n, m))
+    elif um == 'disk':
+        mk = disk.copy()
+    elif um == 'smooth':
+        mk = 0.5 + 0.5 * amp / amp.max()
+    elif um == 'small':          # values around the threshold finfo.eps = 2.2e-16 and a negative one
+        mk = np.ones((n, m))
+        mk[::3, ::2] = 1e-16
+        mk[1::3, ::2] = 3e-16
+        mk[2::3, 1::2] = -0.5
+        mk[0, 0] = 2.0 ** -52
+    elif um == 'f32':
+        mk = disk.astype(np.float32)
+    elif um == 'intones':
+        mk = np.ones((n, m), dtype=int)
+    elif um == 'bool':
+        mk = disk.astype(bool)
+    elif um == 'bigger':         # a mask array of another shape is sampled at the image's coordinates
+        mk = np.ones((n + 2, m + 1))
+        mk[:, 0] = 0
+    return img, mk
+
+
+def util_shape_arg(c):
+    sh = c['shape']
+    if sh is None or isinstance(sh, int):
+        return sh
+    form = c.get('shape_form', 'tuple')
+    return tuple(sh) if form == 'tuple' else (list(sh) if form == 'list' else np.array(sh))
+
+
+def util_base(c):
+    sh = c['shape']
+    return (c['n'], c['m']) if sh is None else ((sh, sh) if isinstance(sh, int) else tuple(sh))
+
+
+def run_util(c):
+    lentil = C.import_lentil()
+    img, mk = util_arrays(c)
+    img0, mk0 = img.copy(), None if mk is None else mk.copy()
+    kw = dict(order=3, mode='nearest') if c['order'] == 3 else dict(order=0, mode='constant')
+    with warnings.catch_warnings():
+        warnings.simplefilter('ignore')
+        try:
+            out = lentil.rescale(img, float(Fraction(c['scale'])), shape=util_shape_arg(c), mask=mk, unitary=c['unitary'], **kw)
+        except Exception as e:      # noqa: BLE001
+            return {'err': type(e).__name__, 'untouched': bool(np.array_equal(img, img0) and (mk is None or np.array_equal(mk, mk0)))}
+    return {'out': Arr(out), 'shares': bool(np.shares_memory(out, img) or (mk is not None and np.shares_memory(out, mk))),
+            'untouched': bool(np.array_equal(img, img0) and img.dtype == img0.dtype and (mk is None or (np.array_equal(mk, mk0) and mk.dtype == mk0.dtype)))}
+
+
+def encode_util(c):
+    img, mk = util_arrays(c)
+    out = [4, 0 if c['order'] == 3 else 1] + C.enc_q(Fraction(c['scale'])) + enc_arr(img)
+    sh = c['shape']
+    out += [0] if sh is None else ([1, sh] if isinstance(sh, int) else [2, sh[0], sh[1]])
+    if mk is None:
+        out += [0]
+    elif mk.dtype.kind != 'f':
+        out += [2]
+    else:
+        out += [1] + enc_arr(mk) + C.enc_q(EPS32 if mk.dtype == np.float32 else EPS64)
+    return out + [1 if c['unitary'] else 0]
+
+
+def util_expected_nodes(c):
+    """plain-Python expectation at the nodes of the sampling grid: (rows, cols, expected values or None)"""
+    img, mk = util_arrays(c)
+    s = Fraction(c['scale'])
+    n, m = c['n'], c['m']
+    bn, bm = util_base(c)
+    N, M = math.ceil(bn * s), math.ceil(bm * s)
+    rows = [(i, node_index(n, N, s, i)) for i in range(N)]
+    cols = [(j, node_index(m, M, s, j)) for j in range(M)]
+    all_nodes = all(y is not None for _, y in rows) and all(x is not None for _, x in cols)
+    rows = [(i, y) for i, y in rows if y is not None]
+    cols = [(j, x) for j, x in cols if x is not None]
+    if mk is not None and mk.shape != img.shape:
+        return N, M, rows, cols, None      # nodes of the mask array are a different set: left to the model
+    if not rows or not cols:
+        return N, M, rows, cols, None
+    yy = np.array([y for _, y in rows])[:, None]
+    xx = np.array([x for _, x in cols])[None, :]
+    pre = np.asarray(img, dtype=float)[yy, xx]
+    if mk is None:
+        post = (pre != 0).astype(float)
+    else:
+        post = np.asarray(mk, dtype=float)[yy, xx].copy()
+        post[post < (float(EPS32) if mk.dtype == np.float32 else float(EPS64))] = 0
+    if c['unitary']:
+        if not all_nodes or pre.sum() == 0:
+            return N, M, rows, cols, None
+        pre = pre * (np.asarray(img, dtype=float).sum() / pre.sum())
+    return N, M, rows, cols, pre * post
+
+
+def oracle_util(c, impl):
+    img, mk = util_arrays(c)
+    if not impl['untouched']:
+        return 'lentil.rescale modified an array of the caller (img or mask)'
+    if 'err' in impl:
+        return f"lentil.rescale raised {impl['err']} on valid arguments"
+    if impl['shares']:
+        return 'the result shares memory with an argument'
+    out = impl['out'].a
+    N, M, rows, cols, exp = util_expected_nodes(c)
+    if out.shape != (N, M):
+        return f'output shape {out.shape}, expected ceil(base*scale) = {(N, M)} for base {util_base(c)}'
+    if exp is not None:
+        ii = np.array([i for i, _ in rows])[:, None]
+        jj = np.array([j for j, _ in cols])[None, :]
+        got = out[ii, jj]
+        tol = TOL * max(float(np.abs(exp).max()), float(np.abs(np.asarray(img, dtype=float)).max()), 1e-300)
+        bad = np.abs(got - exp) > tol
+        if bad.any():
+            k = np.argwhere(bad)[0]
+            return (f'out[{rows[k[0]][0]},{cols[k[1]][0]}] = {got[tuple(k)]!r}, expected {exp[tuple(k)]!r} = img[{rows[k[0]][1]},{cols[k[1]][1]}] '
+                    f"* thresholded mask{' * sum(img)/sum(out)' if c['unitary'] else ''} (node of the sampling grid)")
+    return None
+
+
+def compare_util(c, impl, model):
+    if 'err' in model or 'err' in impl:
+        if impl.get('err') != model.get('err'):
+            return f"implementation {impl.get('err', 'returned an array')}, model {model.get('err', 'returns an array')}"
+        return None
+    img, _ = util_arrays(c)
+    known = [abs(float(e)) for row in model for e in row if isinstance(e, Fraction)]
+    sc = max(known + [float(np.abs(np.asarray(img, dtype=float)).max())])
+    return cmp_arr('out', impl['out'].a, model, sc)
+
+
 def run_impl(c):
     if c.get('test') == 'accuracy':
         return run_accuracy(c)
+    if c['op'] == 'util':
+        return run_util(c)
     if c['op'] == 'tiltchain':
         return run_tiltchain(c)
     if c['op'] == 'history':
@@ -1135,6 +1326,8 @@ def history_label(c, k):
 
 
 def compare(c, impl, model):
+    if c['op'] == 'util':
+        return compare_util(c, impl, model)
     if c['op'] in MULTI:
         for k, (v, r, mres) in enumerate(zip(calls_of(c), impl['steps'], model)):
             msg = compare(v, r, mres)
@@ -1250,6 +1443,8 @@ def oracle(c, impl):
         return accuracy_verdict(impl)
     if c['op'] == 'tiltchain':
         return tiltchain_verdict(c, impl)
+    if c['op'] == 'util':
+        return oracle_util(c, impl)
     if c['op'] in MULTI:
         for k, (v, r) in enumerate(zip(calls_of(c), impl['steps'])):
             msg = oracle(v, {k_: x for k_, x in r.items() if k_ != 'fresh_diff'})
@@ -1381,6 +1576,24 @@ def oracle(c, impl):
         if np.ndim(amp) == 2 and not np.allclose(impl['amp'].a, amp, rtol=0, atol=tol_of(amp) * np.max(np.abs(amp))):
             return 'rescale(1) is not the identity on the amplitude'
     return None
+
+
+def known_match(f, c, impl):
+    if f['id'] == 'C17-explicit-int-mask':
+        return c.get('op') == 'util' and c.get('umask') in ('intones', 'bool') and impl.get('err') == 'ValueError'
+    return False
+
+
+def replay_known(f):
+    if f['id'] == 'C17-explicit-int-mask':
+        lentil = C.import_lentil()
+        img = np.arange(16).reshape(4, 4)
+        try:
+            lentil.rescale(img, 2, mask=np.ones_like(img))      # the documented way to skip the masking operation
+        except ValueError:
+            return True
+        return False
+    return False
 
 
 # ------------------------------------------------------------------ numeric tests (labelled as tests)
